@@ -512,16 +512,17 @@ func Run(r *core.Run) {
 	}
 	hashPart(r, alpha, 3, 3)
 	lengthFieldProbes(r)
+	purityPart(r)
 	commitPart(r, 4)
 	builderPart(r, maxSeq)
-	ev := r.Get("hash_bytes_tuples") + r.Get("hash_int_tuples") + r.Get("hash_tagged_inputs") + r.Get("commit_edits") + r.Get("builder_layouts") + r.Get("parse_sequences")
+	ev := r.Get("hash_bytes_tuples") + r.Get("hash_int_tuples") + r.Get("hash_tagged_inputs") + r.Get("purity_calls") + r.Get("commit_edits") + r.Get("builder_layouts") + r.Get("parse_sequences")
 	r.Set("evaluations", ev)
 	dn := 0
 	for _, k := range []string{"hash_distinct_digests_bytes", "hash_distinct_digests_ints", "hash_distinct_digests_tagged"} {
 		dn += r.Cov[k].(int)
 	}
 	r.Set("distinct_nontrivial", dn)
-	r.Set("rule", "every tuple of <=3 byte strings of length <=3 over the alphabet (and the integers / tagged integers they denote) is hashed; distinct = distinct digests observed (must equal the number of distinct canonical inputs); plus every single edit of every decommitment of <=4 small integers and every integer sequence up to the stated length for the packing parser, compared with a strict reference parser")
+	r.Set("rule", "every tuple of <=3 byte strings of length <=3 over the alphabet (and the integers / tagged integers they denote) is hashed; distinct = distinct digests observed (must equal the number of distinct canonical inputs); plus every single edit of every decommitment of <=4 small integers and every integer sequence up to the stated length for the packing parser, compared with a strict reference parser; plus every sequence of <=3 calls made through reused, overwritten argument buffers (the digest of a value must not depend on the call history)")
 	r.Assume("SHA-512/256 collision resistance: equal digests of distinct canonical inputs are taken to mean equal pre-images, i.e. ambiguous framing")
 	r.Assume("big.Int inputs to the *i hash variants are non-negative (the wire decoders only produce non-negative values)")
 	_ = bytes.Equal
